@@ -90,6 +90,7 @@ func (e *ParserData) AddOp(operator CodeType) {
 	var val interface{} = nil
 	if operator == typeJne || operator == typeJmp {
 		val = IntType(0)
+		val = verifJumpSeed(val)
 	}
 	e.WriteCode(operator, val)
 }
